@@ -21,5 +21,8 @@ for o in r.obligations:
         print(fn, len(o["smt2"]))
         if o.get("smt2_rel"):
             open(fn[:-5] + ".rel.smt2", "w").write(o["smt2_rel"])
+        for d in (1, 2):
+            if o.get("smt2_near%d" % d):
+                open(fn[:-5] + ".near%d.smt2" % d, "w").write(o["smt2_near%d" % d])
         if o.get("smt2_cone"):
             open(fn[:-5] + ".cone.smt2", "w").write(o["smt2_cone"])
